@@ -727,6 +727,256 @@ theorem fnQuote_evalLit_st (dev : Dev) (hd : dev.litAlias = false) (args : List 
     | call f as => simp [fnQuote]; exact mild_unmodelled
     | unk => simp [fnQuote]; exact mild_unmodelled
 
+
+/-! ### text, conversion and list functions -/
+
+theorem accept_mild (h : Heap) (w : Want) (v : Val) : Mild (w.accept h v) := by
+  cases w <;> cases v <;> simp only [Want.accept] <;> first | mild_tac | (split <;> mild_tac)
+
+theorem wantLoop_st (e : Arg → M Val) :
+    ∀ (args : List Arg) (ws : List Want) (acc : List Tree), (∀ a ∈ args, ST k (e a)) → ST k (wantLoop e args ws acc)
+  | [], _, _, _ => by simp only [wantLoop]; exact ST.ret trivial
+  | _ :: _, [], _, _ => by simp only [wantLoop]; exact ST.ret trivial
+  | a :: r, w :: ws, acc, he => by
+    simp only [wantLoop]
+    apply ST.bind (he a (List.mem_cons_self ..))
+    intro v _
+    apply ST.bind ST.getH
+    intro h _
+    apply ST.bind (ST.liftE (fun _ _ => trivial) (accept_mild h w v))
+    intro xs _
+    exact wantLoop_st e r ws _ (mem_tail he)
+
+theorem retTree_st (t : Tree) : ST k (retTree t) := by
+  cases t with
+  | arr xs =>
+    simp only [retTree]
+    apply ST.bind (ST.alloc (show Cell.hi k (Cell.arr (xs.map Tree.toVal)) from by
+      intro v hv
+      obtain ⟨t, _, rfl⟩ := List.mem_map.mp hv
+      exact toVal_hi t))
+    intro c hc
+    exact ST.ret (show Val.hi k (Val.aref c) from hc)
+  | null => exact ST.ret (toVal_hi _)
+  | bool b => exact ST.ret (toVal_hi _)
+  | int i => exact ST.ret (toVal_hi _)
+  | flt f => exact ST.ret (toVal_hi _)
+  | str x => exact ST.ret (toVal_hi _)
+  | obj kvs => exact ST.ret (toVal_hi _)
+
+/-- the result function of a text/conversion function ends in a value or a mild stop -/
+def ScalarFn.MildFin (g : ScalarFn) : Prop := ∀ n acc, Mild (g.fin n acc)
+
+theorem fnScalar_st (g : ScalarFn) (hg : g.MildFin) (e : Arg → M Val) (args : List Arg) (he : ∀ a ∈ args, ST k (e a)) :
+    ST k (fnScalar g e args) := by
+  have hw := wantLoop_st e _ (g.wants args.length) [] (swapArgs_mem (b := g.swap) he)
+  unfold fnScalar
+  split
+  · exact ST.stop _
+  · apply ST.bind hw
+    intro acc _
+    apply ST.bind (ST.liftE (fun _ _ => trivial) (hg _ _))
+    intro t _
+    exact retTree_st t
+
+theorem asciiOr_mild {s : Bytes} {r : Except Stop Tree} (hr : Mild r) : Mild (asciiOr s r) := by
+  unfold asciiOr; split <;> first | exact hr | mild_tac
+
+theorem sliceStr_mild (s : Bytes) (a b : Int) : Mild (sliceStr s a b) := by
+  unfold sliceStr; split <;> mild_tac
+
+macro "fin_mild" : tactic =>
+  `(tactic| repeat' (first
+      | mild_tac
+      | exact sliceStr_mild _ _ _
+      | (apply asciiOr_mild)
+      | split))
+
+theorem sfCase_mild (f : UInt8 → UInt8) : (sfCase f).MildFin := by
+  intro n acc; simp only [sfCase]; fin_mild
+theorem sfTitle_mild : sfTitle.MildFin := by
+  intro n acc; simp only [sfTitle]; fin_mild
+theorem sfTrim_mild : sfTrim.MildFin := by
+  intro n acc; simp only [sfTrim]; fin_mild
+theorem sfReplace_mild : sfReplace.MildFin := by
+  intro n acc; simp only [sfReplace]; fin_mild
+theorem sfSplit_mild : sfSplit.MildFin := by
+  intro n acc; simp only [sfSplit]; fin_mild
+theorem sfSubstr_mild : sfSubstr.MildFin := by
+  intro n acc; simp only [sfSubstr]; fin_mild
+theorem sfJoin_mild : sfJoin.MildFin := by
+  intro n acc; simp only [sfJoin]; fin_mild
+theorem sfInt_mild : sfInt.MildFin := by
+  intro n acc; simp only [sfInt]; fin_mild
+theorem sfFloat_mild : sfFloat.MildFin := by
+  intro n acc; simp only [sfFloat, floatOfText]; fin_mild
+theorem sfString_mild : sfString.MildFin := by
+  intro n acc; simp only [sfString]; fin_mild
+
+theorem fnTable_mildFin {f : Bytes} {g : ScalarFn} (h : fnKind f = some (.scalar g)) : g.MildFin := by
+  have hm := lookupKind_mem h
+  simp [fnTable] at hm
+  rcases hm with ⟨_, hm⟩ | ⟨_, hm⟩ | ⟨_, hm⟩ | ⟨_, hm⟩ | ⟨_, hm⟩ | ⟨_, hm⟩ | ⟨_, hm⟩ | ⟨_, hm⟩ | ⟨_, hm⟩ | ⟨_, hm⟩ | ⟨_, hm⟩ <;> subst hm
+  · exact sfCase_mild _
+  · exact sfCase_mild _
+  · exact sfTitle_mild
+  · exact sfTrim_mild
+  · exact sfReplace_mild
+  · exact sfSplit_mild
+  · exact sfSubstr_mild
+  · exact sfJoin_mild
+  · exact sfInt_mild
+  · exact sfFloat_mild
+  · exact sfString_mild
+
+theorem fnReverse_st (e : Arg → M Val) (args : List Arg) (he : ∀ a ∈ args, ST k (e a)) : ST k (fnReverse e args) := by
+  match args with
+  | [] => simp only [fnReverse]; st
+  | [a] =>
+    simp only [fnReverse]
+    apply ST.bind (he a (by simp))
+    intro v hv
+    cases v <;> try exact ST.stop _
+    rename_i c
+    simp only
+    apply ST.bind ST.getH
+    intro h hh
+    apply ST.bind (ST.alloc (show Cell.hi k (Cell.arr (h.arrAt c).reverse) from by
+      intro v hv'
+      exact arrAt_hi hh.1 hv v (by simpa using hv')))
+    intro c' hc'
+    exact ST.ret (show Val.hi k (Val.aref c') from hc')
+  | _ :: _ :: _ => simp only [fnReverse]; st
+
+theorem fnAppend_st (e : Arg → M Val) (args : List Arg) (he : ∀ a ∈ args, ST k (e a)) : ST k (fnAppend e args) := by
+  match args with
+  | [] => simp only [fnAppend]; st
+  | [_] => simp only [fnAppend]; st
+  | [a, b] =>
+    simp only [fnAppend]
+    apply ST.bind (he a (by simp))
+    intro v hv
+    cases v <;> try exact ST.stop _
+    rename_i c
+    simp only
+    apply ST.bind (he b (by simp))
+    intro w hw
+    apply ST.bind ST.getH
+    intro h hh
+    apply ST.bind (ST.alloc (show Cell.hi k (Cell.arr (h.arrAt c ++ [w])) from by
+      intro x hx
+      rcases List.mem_append.mp hx with h1 | h1
+      · exact arrAt_hi hh.1 hv x h1
+      · simp at h1; subst h1; exact hw))
+    intro c' hc'
+    exact ST.ret (show Val.hi k (Val.aref c') from hc')
+  | _ :: _ :: _ :: _ => simp only [fnAppend]; st
+
+theorem includeLoop_mild (v1 : Val) : ∀ (xs : List Val), Mild (includeLoop v1 xs)
+  | [] => by simp only [includeLoop]; mild_tac
+  | m :: r => by
+    simp only [includeLoop]
+    split
+    · mild_tac
+    · mild_tac
+    · exact includeLoop_mild v1 r
+
+theorem fnInclude_st (e : Arg → M Val) (args : List Arg) (he : ∀ a ∈ args, ST k (e a)) : ST k (fnInclude e args) := by
+  match args with
+  | [] => simp only [fnInclude]; st
+  | [_] => simp only [fnInclude]; st
+  | [a, b] =>
+    simp only [fnInclude]
+    apply ST.bind (he b (by simp))
+    intro v1 _
+    apply ST.bind (he a (by simp))
+    intro v _
+    cases v <;> try exact ST.stop _
+    · cases v1 <;> first | exact ST.stop _ | exact ST.ret trivial
+    · rename_i c
+      simp only
+      apply ST.bind ST.getH
+      intro h _
+      exact ST.liftE (fun r hr => includeLoop_hi v1 _ r hr) (includeLoop_mild v1 _)
+  | _ :: _ :: _ :: _ => simp only [fnInclude]; st
+
+theorem mild_error_cast {α β : Type} {e : Stop} (h : Mild (.error e : Except Stop α)) : Mild (.error e : Except Stop β) :=
+  fun e' he' => by cases he'; exact h e rfl
+
+theorem sortLess_mild (ki kj : Option Val) : Mild (sortLess ki kj) := by
+  unfold sortLess
+  repeat' (first | mild_tac | split)
+
+theorem sortInsert_mild (x : Option Val × Val) : ∀ (pre : List (Option Val × Val)), Mild (sortInsert x pre)
+  | [] => by simp only [sortInsert]; mild_tac
+  | p :: r => by
+    have hl := sortLess_mild x.1 p.1
+    have ih := sortInsert_mild x r
+    simp only [sortInsert]
+    split
+    · rename_i e he; rw [he] at hl; exact mild_error_cast hl
+    · cases hr : sortInsert x r with
+      | error e => rw [hr] at ih; simpa using ih
+      | ok l => simp; mild_tac
+    · mild_tac
+
+theorem sortRun_mild : ∀ (xs pre : List (Option Val × Val)), Mild (sortRun xs pre)
+  | [], pre => by simp only [sortRun]; mild_tac
+  | x :: r, pre => by
+    have hi := sortInsert_mild x pre
+    simp only [sortRun]
+    split
+    · rename_i e he; rw [he] at hi; exact hi
+    · exact sortRun_mild r _
+
+theorem sortKeys_mild (env : Env) (h : Heap) (fs : List Frag) : ∀ (xs : List Val), Mild (sortKeys env h fs xs)
+  | [] => by simp only [sortKeys]; mild_tac
+  | x :: r => by
+    have hp := pathFirst_mild env h fs x
+    have ih := sortKeys_mild env h fs r
+    simp only [sortKeys]
+    split
+    · rename_i e he; rw [he] at hp; exact mild_error_cast hp
+    · cases hr : sortKeys env h fs r with
+      | error e => rw [hr] at ih; simpa using ih
+      | ok l => simp; mild_tac
+
+theorem sortList_mild (env : Env) (h : Heap) (fs : List Frag) (xs : List Val) : Mild (sortList env h fs xs) := by
+  have hk := sortKeys_mild env h fs xs
+  unfold sortList
+  split
+  · mild_tac
+  · split
+    · rename_i e he; rw [he] at hk; exact mild_error_cast hk
+    · rename_i ks _
+      have hr := sortRun_mild ks []
+      cases hrr : sortRun ks [] with
+      | error e => rw [hrr] at hr; simpa using mild_error_cast (β := List Val) hr
+      | ok l => simp; mild_tac
+
+theorem fnSort_st (env : Env) (e : Arg → M Val) (args : List Arg) (he : ∀ a ∈ args, ST k (e a)) : ST k (fnSort env e args) := by
+  match args with
+  | [] => simp only [fnSort]; st
+  | [_] => simp only [fnSort]; st
+  | [a, b] =>
+    simp only [fnSort]
+    apply ST.bind (he a (by simp))
+    intro v hv
+    cases v <;> try exact ST.stop _
+    rename_i c
+    cases b <;> try exact ST.stop _
+    rename_i p
+    simp only
+    apply ST.bind ST.getH
+    intro h hh
+    apply ST.bind (ST.liftE (α := List Val) (fun r hr v hv' => arrAt_hi hh.1 hv v (sortList_mem env h p.frags _ r hr v hv'))
+      (sortList_mild env h p.frags _))
+    intro r hr
+    apply ST.bind (ST.alloc (show Cell.hi k (Cell.arr r) from hr))
+    intro c' hc'
+    exact ST.ret (show Val.hi k (Val.aref c') from hc')
+  | _ :: _ :: _ :: _ => simp only [fnSort]; st
+
 /-- the functions that compare containers structurally (the only modelled traversal that can fail to end,
 on cyclic data) -/
 def deepCmpFns : List Bytes := [b!"equal", b!"eq", b!"==", b!"neq", b!"!="]
@@ -794,6 +1044,11 @@ theorem evalFn_st (dev : Dev) (hd : dev.copies) (ev : Arg → Val → M Val) (ro
     case nth => exact fnNth_st _ _ he
     case size => exact fnSize_st _ _ he
     case pred p => exact fnPred_st _ _ _ he
+    case scalar g => exact fnScalar_st _ (fnTable_mildFin hkf) _ _ he
+    case reverse => exact fnReverse_st _ _ he
+    case append => exact fnAppend_st _ _ he
+    case incl => exact fnInclude_st _ _ he
+    case sort => exact fnSort_st _ _ _ he
 
 theorem eval_st (dev : Dev) (hd : dev.copies) (root : Val) (hroot : root.hi k) :
     ∀ (n : Nat) (a : Arg), Fit k n a → ∀ at_, at_.hi k → ST k (eval ⟨dev, none⟩ root n a at_)
